@@ -74,6 +74,41 @@ func genC13(e *emitter, r *rng, thorough bool) {
 			e.emit("enc.interior-ones", "b58.enc "+hx(base58.Decode(s)))
 		}
 	}
+	// values around multiples of 2^32 / 2^64 and values whose middle machine words are all ones (a multi-word
+	// accumulator whose carry does not ripple through a saturated word), encoded and decoded, with leading zeros
+	for k := 1; k <= 6; k++ {
+		for _, w := range []uint{32, 64} {
+			v := new(big.Int).Lsh(big.NewInt(1), w*uint(k))
+			for _, d := range []int64{-2, -1, 0, 1} {
+				x := new(big.Int).Add(v, big.NewInt(d))
+				e.emit("enc.word-boundary", "b58.enc "+hx(x.Bytes()))
+				e.emit("dec.word-boundary", "b58.dec "+hx([]byte(base58.Encode(x.Bytes()))))
+				e.emit("cdec.word-boundary", "b58.cdec "+hx([]byte(base58.CheckEncode(x.Bytes(), byte(k)))))
+			}
+		}
+	}
+	for i := 0; i < 12; i++ {
+		hi := new(big.Int).SetBytes(r.bytes(1 + r.intn(12)))
+		lo := new(big.Int).SetBytes(r.bytes(8))
+		sat := new(big.Int).Sub(new(big.Int).Lsh(big.NewInt(1), 64*uint(1+i%3)), big.NewInt(1))
+		x := new(big.Int).Lsh(hi, 64*uint(2+i%3))
+		x.Or(x, new(big.Int).Lsh(sat, 64))
+		x.Or(x, lo)
+		b := append(make([]byte, i%3), x.Bytes()...)
+		e.emit("enc.saturated-word", "b58.enc "+hx(b))
+		e.emit("dec.saturated-word", "b58.dec "+hx([]byte(base58.Encode(b))))
+		// the same with the low word pushed over the edge by the LAST digit chunk
+		y := new(big.Int).Or(new(big.Int).Lsh(hi, 128), new(big.Int).Lsh(sat, 64))
+		y.Or(y, new(big.Int).Sub(new(big.Int).Lsh(big.NewInt(1), 64), big.NewInt(int64(1+r.intn(57)))))
+		for d := int64(0); d < 3; d++ {
+			z := new(big.Int).Add(y, big.NewInt(d*29))
+			e.emit("dec.saturated-word", "b58.dec "+hx([]byte(base58.Encode(z.Bytes()))))
+		}
+	}
+	e.emit("cdec.zeros17", "b58.cdec "+hx([]byte(base58.CheckEncode(make([]byte, 17), 1))))
+	for l := 1; l <= 40; l++ {
+		e.emit("cdec.zeros", "b58.cdec "+hx([]byte(base58.CheckEncode(make([]byte, l), byte(l)))))
+	}
 	// powers of 58 and of 256 and their neighbours (a single non-zero digit / byte followed by zeros)
 	for k := 1; k <= 60; k++ {
 		for _, base := range []int64{58, 256} {
